@@ -158,19 +158,19 @@ theorem childAt_zero {pl : Place} (hw : PlWf pl) (hs : isScalarTy pl.ty = false)
 
 /-! ## machine states -/
 
-/-- no array of unknown size is being completed: `tsize` and `tinc` are the plain ones -/
-structure Plain (st : St) : Prop where
-  inc : st.inc = false
-  top : st.top = (st.obj 0).ty.size
+/-- slot `k` is not an array of unknown size that is being completed: `tsize` and `tinc` are the
+plain ones (always so for `k > 0`) -/
+structure Flat (st : St) (k : Nat) : Prop where
+  tinc : st.tinc k = false
+  tsize : st.tsize k = (st.obj k).ty.size
 
-theorem Plain.tsize {st : St} (h : Plain st) (k : Nat) : st.tsize k = (st.obj k).ty.size := by
-  unfold St.tsize
-  split
-  · rename_i hk; rw [hk, h.top]
-  · rfl
+theorem flat_pos (st : St) {k : Nat} (hk : 0 < k) : Flat st k := by
+  have hk0 : k ≠ 0 := by omega
+  refine ⟨?_, ?_⟩
+  · unfold St.tinc; simp [hk0]
+  · unfold St.tsize; rw [if_neg hk0]
 
-theorem Plain.tinc {st : St} (h : Plain st) (k : Nat) : st.tinc k = false := by
-  unfold St.tinc; rw [h.inc]; simp
+theorem Flat.sub {st : St} {k : Nat} (h : Flat st k) (s : Nat) : Flat { st with sub := s } k := ⟨h.tinc, h.tsize⟩
 
 /-- `cur` is the innermost slot marked `iscur` below `sub` -/
 def CurOK (st : St) : Prop :=
@@ -246,9 +246,15 @@ theorem Frame.trans {m m' : Nat} {a b c : St} (h : Frame m a b) (h' : Frame m' b
 theorem Frame.mono {m m' : Nat} {a b : St} (h : Frame m' a b) (hm : m ≤ m') : Frame m a b :=
   ⟨h.cur, h.top, h.inc, fun j hj => h.low j (by omega)⟩
 
-theorem Frame.plain {m : Nat} {st st' : St} (h : Frame m st st') (hp : Plain st)
-    (h0 : (st'.obj 0).ty = (st.obj 0).ty) : Plain st' :=
-  ⟨by rw [h.inc]; exact hp.inc, by rw [h.top, h0]; exact hp.top⟩
+theorem Flat.frame {m : Nat} {st st' : St} (h : Flat st m) (hf : Frame m st st')
+    (hty : (st'.obj m).ty = (st.obj m).ty) : Flat st' m := by
+  refine ⟨?_, ?_⟩
+  · have := h.tinc
+    unfold St.tinc at this ⊢
+    rw [hf.inc]; exact this
+  · have := h.tsize
+    unfold St.tsize at this ⊢
+    rw [hf.top, hty]; exact this
 
 theorem Lvl.frame {st st' : St} {k m : Nat} {pl ch : Place} {pos : Nat} (h : Lvl st k pl pos ch)
     (hf : Frame m st st') (hk : k < m) : Lvl st' k pl pos ch := by
